@@ -49,7 +49,7 @@ RULE = ('Hypothesis: CamxSpec (format in uamiv[AVERAGE EMISSIONS AIRQUALITY '
         'are read in the window 1970-2069.  Non-trivial: (nspec>1 or format '
         'has >1 variable) and nz>1 and steps>1, or a day/year/century/leap '
         'roll-over inside the file, or a denormal / -0.0 payload.  Distinct '
-        'by sha1 of the case spec.' + '  Domain by construction: lateral_boundary nx, ny >= 2 (an edge needs its two corner cells), EMISSIONS nz = 1, AIRQUALITY one step, steps of whole hours (lateral_boundary 1 h), every instant incl. the last end time inside 1970-2069, species names not DATE/TFLAG/ETFLAG, a 3-variable cloud_rain file whose size is also a whole number of 5-variable steps is not generated (the format stores no variable count), old-style landuse with at most one optional field.  The record reader is exercised here for uamiv only (the other record readers are compared with the memmap readers under C13); files built from arrays for the wind writer always carry a stagger flag.')
+        'by sha1 of the case spec.' + '  Domain by construction: lateral_boundary nx, ny >= 2 (an edge needs its two corner cells), EMISSIONS nz = 1, AIRQUALITY one step, steps of whole hours (lateral_boundary 1 h), every instant incl. the last end time inside 1970-2069, species names not DATE/TFLAG/ETFLAG, a 3-variable cloud_rain file whose size is also a whole number of 5-variable steps is not generated (the format stores no variable count), old-style landuse with at most one optional field.  The record reader is exercised here for uamiv only (the other record readers are compared with the memmap readers under C13); files built from arrays for the wind writer always carry a stagger flag.' + '  Round-5 extensions: route pnc creates the data variables in a drawn permutation (the bytes written must not depend on creation order; VAR-LIST order of uamiv/lateral_boundary is content and is kept); w2r route refread = the memmap reader\'s view of the reference-encoded file is written while 0/1 bystander files of the same format and another grid/species count are open (or were opened and closed), lateral_boundary edge-definition records must equal the file\'s own; r2l for uamiv also produces little-endian files (words and markers byte-swapped, character words kept) opened with endian="little".')
 ASSUMPTIONS = ['vf.ref.camx_ref implements the CAMx layouts of DESIGN.md '
                'Appendix A; validated by vf.ref.selfcheck against the '
                'repository samples and the literal arrays of its tests',
@@ -67,15 +67,28 @@ def cases(draw, tier='quick'):
     d = draw(st.sampled_from(['w2r', 'r2l']))
     spec['dir'] = d
     if d == 'w2r':
-        routes = ['pnc']
+        routes = ['pnc', 'pnc', 'pnc', 'refread']
         if fmt == 'uamiv':
-            routes = ['pnc', 'ioapi']
+            routes = ['pnc', 'pnc', 'ioapi', 'refread']
         spec['route'] = draw(st.sampled_from(routes))
+        if spec['route'] == 'refread' and fmt == 'wind' and \
+                spec['nx'] * spec['ny'] == 1:
+            spec['route'] = 'pnc'   # known finding: wind memmap on 1x1
+        if spec['route'] == 'refread':
+            # the file the writer gets is the library's own view of a
+            # reference-encoded file; 0/1 bystander files of another shape
+            # are opened (and kept alive or closed again) before the write
+            spec['etflag'] = False
+            spec['bystander'] = draw(st.sampled_from([None, 'alive',
+                                                      'alive', 'closed']))
+            return spec
         spec['etflag'] = bool(fmt == 'uamiv' and draw(st.booleans()))
         draw(C.input_dtypes(spec))
         draw(C.input_masks(spec))
         if spec.get('mask') and spec['mask']['kind'] == 'build':
             spec['route'] = 'pnc'
+        if spec['route'] == 'pnc':
+            draw(C.input_orders(spec))
         if fmt == 'wind' and spec['lstagger'] is None:
             # the writer documents/uses LSTAGGER: files built from arrays
             # carry one
@@ -87,6 +100,10 @@ def cases(draw, tier='quick'):
             # with the memmap readers under C13
             rd = ['memmap', 'memmap', 'read']
         spec['reader'] = draw(st.sampled_from(rd))
+        if fmt == 'uamiv' and spec['reader'] == 'memmap' and \
+                draw(st.integers(0, 2)) == 0:
+            # the uamiv memmap reader documents endian='little'
+            spec['endian'] = 'little'
     return spec
 
 
@@ -188,10 +205,49 @@ def cmp_times_view(r, spec, v, c):
                  'end/' + K.end_symptom([he], [want_e[-1]]))
 
 
+def build_refread(spec, keep):
+    """f = memmap reader on the reference-encoded file; then the bystander
+    (same format, other grid) is opened and kept alive or closed again"""
+    p0 = libstate.scratch_path('.ref.' + spec['fmt'])
+    keep['paths'].append(p0)
+    with open(p0, 'wb') as fo:
+        fo.write(C.ref_bytes(spec))
+    f = C.open_lib(spec, p0, 'memmap')
+    keep['files'].append(f)
+    by = spec.get('bystander')
+    if by:
+        bs = C.bystander_spec(spec)
+        p1 = libstate.scratch_path('.by.' + spec['fmt'])
+        keep['paths'].append(p1)
+        with open(p1, 'wb') as fo:
+            fo.write(C.ref_bytes(bs))
+        b = C.open_lib(bs, p1, 'memmap')
+        if by == 'closed':
+            C.drop(b)
+        else:
+            keep['files'].append(b)
+        del b
+    return f
+
+
 def check_w2r(r, spec, m):
+    keep = {'paths': [], 'files': []}
+    try:
+        _check_w2r(r, spec, m, keep)
+    finally:
+        C.drop(*keep['files'])
+        keep['files'] = []
+        C.cleanup(*keep['paths'])
+
+
+def _check_w2r(r, spec, m, keep):
     n0 = len(r.failures)
-    ok, built = guard(r, 'w2r-build', C.build_lib, spec,
-                      spec.get('route', 'pnc'), spec.get('etflag', False))
+    if spec.get('route') == 'refread':
+        ok, f = guard(r, 'w2r-build', build_refread, spec, keep)
+        built = (f,)
+    else:
+        ok, built = guard(r, 'w2r-build', C.build_lib, spec,
+                          spec.get('route', 'pnc'), spec.get('etflag', False))
     gfail(r, spec, n0)
     if not ok:
         return
@@ -237,6 +293,11 @@ def check_w2r(r, spec, m):
     fmt = spec['fmt']
     if fmt in ('uamiv', 'lateral_boundary'):
         cmp_header_view(r, spec, m, v)
+    if fmt == 'lateral_boundary' and \
+            v.hdr['edges'] != R.default_edges(spec['nx'], spec['ny']):
+        fail(r, spec, 'w2r-header', 'edge definition records %r, expected '
+             '%r' % (v.hdr['edges'], R.default_edges(spec['nx'], spec['ny'])),
+             'edges')
     if fmt == 'cloud_rain':
         want = dict(desc=spec['desc'].ljust(20)[:20], nx=spec['nx'],
                     ny=spec['ny'], nz=spec['nz'], nvar=spec['nvar'])
@@ -424,11 +485,17 @@ def check_case(spec):
         r.label('route:' + spec.get('route', 'pnc') +
                 ('+etflag' if spec.get('etflag') else ''),
                 'vdtype:' + spec.get('vdtype', 'f4'))
+        if spec.get('route') == 'refread':
+            r.label('bystander:%s' % spec.get('bystander'))
+        if spec.get('vorder'):
+            r.label('creation-order-permuted')
         if spec.get('mask'):
             r.label('masked-input:' + spec['mask']['kind'])
         check_w2r(r, spec, m)
     else:
         r.label('reader:' + spec.get('reader', 'memmap'))
+        if spec.get('endian') == 'little':
+            r.label('endian:little')
         check_r2l(r, spec, m)
     return r
 
